@@ -14,7 +14,7 @@ structure Exact : Prop where
     Gen.Iso.slicesSec = [(0, 4), (5, 7), (8, 10), (11, 13), (14, 16), (17, 19)] ∧
     Gen.Iso.slicesMin = [(0, 4), (5, 7), (8, 10), (11, 13), (14, 16)]
   chars : Gen.Iso.zChar = 'Z' ∧ Gen.Iso.plusChar = '+'
-  epochInt : Gen.Iso.epochTypes.contains "int" = true
+  epochInt : Iso.epochAdmits "int" = true
   window : ∀ n : Int, Gen.Iso.lenWindow n ↔ (10 ≤ n ∧ n ≤ 33)
   plus : ∀ n : Int, Gen.Iso.plusReject n ↔ ¬ (10 ≤ n ∧ n ≤ 28)
   dashA : ∀ c, Gen.Iso.dashTestA c ↔ c ≠ '-'
@@ -351,14 +351,14 @@ theorem pyInt_too_long (ds : List Char) (h : ∀ c ∈ ds, c.isDigit = true) (hl
 /-- All-digit text: a value exactly for the second counts of valid date-times. -/
 theorem digits_iff (s : List Char) (hd : isDigitStr s = true) (dt : DateTime) :
     epoch "int" (pyInt s) = .ok (some dt) ↔
-      (Gen.Iso.epochTypes.contains "int" = true ∧ s.length ≤ maxStrDigits ∧ validDateTime dt = true ∧ dt.micro = 0 ∧
+      (Iso.epochAdmits "int" = true ∧ s.length ≤ maxStrDigits ∧ validDateTime dt = true ∧ dt.micro = 0 ∧
         toEpoch dt = (Nat.ofDigitChars 10 s 0 : Nat)) := by
   have hall : ∀ c ∈ s, c.isDigit = true := by
     simp only [isDigitStr, Bool.and_eq_true, List.all_eq_true] at hd; exact hd.2
   have hne : s ≠ [] := by
     intro e; subst e; simp [isDigitStr] at hd
   unfold epoch
-  by_cases hc : Gen.Iso.epochTypes.contains "int" = true
+  by_cases hc : Iso.epochAdmits "int" = true
   · rw [if_pos hc]
     by_cases hlen : s.length ≤ maxStrDigits
     · rw [pyInt_digits s hne hall hlen]
